@@ -57,9 +57,9 @@ def source_incidence_matrix(network: Network, node_mapper: map.NetworkMapper = m
     for cs in cs_index.keys:
         source_element = network[cs]
         if network.node_zero_label != source_element.node1:
-            Q[node_index[source_element.node1]][cs_index[cs]] = -1
+            Q[node_index[source_element.node1]][cs_index[cs]] -= 1
         if network.node_zero_label != network[cs].node2:
-            Q[node_index[source_element.node2]][cs_index[cs]] = 1
+            Q[node_index[source_element.node2]][cs_index[cs]] += 1
     return Q
 
 def current_source_vector(network: Network, source_mapper: map.SourceIndexMapper = map.alphabetic_current_source_mapper) -> np.ndarray:
